@@ -234,10 +234,17 @@ func (p *provider) Close() error {
 
 	verifPoint("provider.Close.scopes")
 
-	// Close root scope
+	// Close root scope - as its owner: somebody who holds it (Get(Scope) on
+	// the provider, a singleton that was injected with it) may be closing it
+	// right now. That close is waited for and what it reports is reported
+	// here too. A close that had finished before is not reported again.
 	if p.rootScope != nil {
-		if err := p.rootScope.Close(); err != nil {
-			errors = append(errors, fmt.Errorf("root scope: %w", err))
+		select {
+		case <-p.rootScope.closeDone:
+		default:
+			if err := p.rootScope.closeFromOwner(); err != nil {
+				errors = append(errors, fmt.Errorf("root scope: %w", err))
+			}
 		}
 
 		// rootScope is kept: calls that overlap Close read it without
